@@ -22,7 +22,8 @@ type Variant struct {
 	DoorsPresent  [4]bool   `json:"doors_present"`           // which of keys 1..4 are in the map
 	ForeignDoors  []uint8   `json:"foreign_doors,omitempty"` // extra keys (0, 5..255) with value 0x5a
 	WeekdaysNil   bool      `json:"weekdays_nil,omitempty"`
-	WeekPresent   [7]bool   `json:"week_present"` // which weekday keys are in the map (monday..sunday)
+	ExtraWeekdays []int     `json:"extra_weekdays,omitempty"` // weekday map: extra keys (7 = ISO Sunday, 8, -1 ...) set to true
+	WeekPresent   [7]bool   `json:"week_present"`             // which weekday keys are in the map (monday..sunday)
 	ReadersNil    bool      `json:"readers_nil,omitempty"`
 	ReadPresent   [4]bool   `json:"read_present"`
 	ForeignRead   []uint8   `json:"foreign_read,omitempty"`
@@ -147,6 +148,11 @@ func Weekdays(c spec.Call, v Variant) types.Weekdays {
 	for i, d := range days {
 		if v.WeekPresent[i] {
 			w[d] = c.Weekdays[i]
+		}
+	}
+	for _, k := range v.ExtraWeekdays {
+		if k < 0 || k > 6 {
+			w[time.Weekday(k)] = true
 		}
 	}
 	return w
